@@ -90,6 +90,7 @@ class Path:
         self.rng_calls = 0
         self.exps = []
         self.logs = []
+        self.sqrts = []
         self.rng_limit = None
 
     # ------------------------------------------------------------------ fresh
@@ -256,6 +257,7 @@ class Path:
             s = self.fresh('sqrt')
             self.ax.append(z3.Implies(a >= 0, z3.And(s >= 0, s * s == a)))
             self.defs[str(s)] = ('sqrt', a)
+            self.sqrts.append((a, s))
             return s
         return self.cached('sqrt', [a], make)
 
@@ -442,6 +444,10 @@ class Path:
                         continue
                     out.append(z3.Implies(z3.And(a > 0, b > 0, a * b == cc), l + m == n))
                     out.append(z3.Implies(z3.And(a > 0, b > 0, a == b * cc), l == m + n))
+        if len(self.sqrts) <= 40:
+            for i, (a, r) in enumerate(self.sqrts):
+                for (b, q) in self.sqrts[i + 1:]:
+                    out.append(z3.Implies(a == b, r == q))       # congruence of sqrt
         for i, (a, c, s_) in enumerate(at):
             out.append(z3.Implies(a == 0, z3.And(c == 1, s_ == 0)))
             for j, (b, c2, s2) in enumerate(at):
